@@ -181,6 +181,13 @@ def run(ctx):
     ctx.extra["choice_points_total"] = npoints
     ctx.extra["deviation_bound"] = bound
     ctx.extra["rebound_modules"] = permset.install()
+    from .. import setseam
+
+    import hdl21.signal as _hs
+
+    ctx.extra["import_seam"] = dict(setseam.STATS, active=(_hs.__dict__.get("set") is permset.PermSet and setseam.STATS["modules"] > 0))
+    if not ctx.extra["import_seam"]["active"]:
+        ctx.violation(dict(kind="harness", corpus="import_seam"), dict(), "the import-time set seam is not active: set displays and comprehensions would not be explored")
     # ---- seed conformance leg ----
     rnd = random.Random(ctx.seed)
     idxs = sorted(rnd.sample(range(len(items)), min(len(items), 40 if ctx.quick else 120)))
